@@ -1,6 +1,13 @@
 (* MacBinary.v -- model of lib/macbinary.c: the pass-through decoder that
-   strips a MacBinary header from members written by MacLHA.  Its "callback
-   data" is the inner LHADecoder. *)
+   strips a MacBinary header from members written by MacLHA.
+
+   Pointers.  The MacBinaryDecoder holds a pointer to the inner LHADecoder,
+   whose callback data in turn is a pointer to the LHABasicReader, and the
+   inner decoder may carry a progress callback whose invocations are visible
+   to the caller.  Everything the pass-through decoder reaches through its
+   pointer is its "callback state" here: [mb_world] = the inner decoder (which
+   contains its copy of the basic reader, see Reader.v) and the progress
+   events the inner decoder has emitted. *)
 From Lhasa Require Import Base DecBase Loop Generated Header BasicReader AnyDecoder Decoder.
 Local Open Scope N_scope.
 
@@ -10,13 +17,27 @@ Record mb_state := {
   mb_remaining : N             (* stream_remaining *)
 }.
 
+(* An LHADecoder of one of the decoders[] types reading through the basic
+   reader: decoder->dtype->max_read, ->block_size and the decoder itself. *)
+Record idec := {
+  id_max_read : N;
+  id_block_size : N;
+  id_dec : @decoder breader dstate
+}.
+
+(* what the pass-through decoder reaches through MacBinaryDecoder.decoder *)
+Record mb_world := { mw_dec : idec; mw_ev : list (N * N) }.
+
 Section MacBinary.
   Variable junk : N.
 
-  (* the inner decoder: any decoder type reading through the basic reader *)
-  Definition idec := @decoder breader dstate.
-  Definition inner_read (mr bs : N) (d : idec) (n : N) :=
-    lha_decoder_read (any_read decoder_callback junk) mr bs d n.
+  Definition with_dec (d : idec) (d' : @decoder breader dstate) : idec :=
+    {| id_max_read := id_max_read d; id_block_size := id_block_size d; id_dec := d' |}.
+
+  (* lha_decoder_read(inner, buf, n) *)
+  Definition inner_read (d : idec) (n : N) : outcome (list N * list (N * N) * idec) :=
+    '(o, ev, d') <- lha_decoder_read (any_read decoder_callback junk) (id_max_read d) (id_block_size d) (id_dec d) n ;;
+    Ok (o, ev, with_dec d d').
 
   Definition mb_at (site : N) (data : list N) (i : N) : outcome N :=
     if i <? mb_header_extent then
@@ -56,10 +77,12 @@ Section MacBinary.
     m2 <- block_is_zero (N.to_nat mb_MBHDR_LEN_MACBINARY2_DATA) data mb_MBHDR_OFF_MACBINARY2_DATA ;;
     if negb m2 then Ok false else
     fl <- mb_at 1306 data mb_MBHDR_OFF_FILENAME_LEN ;;
+    (* filename_len > MBHDR_LEN_FILENAME || filename_len != strlen(header->filename) || memcmp(...) *)
+    if mb_MBHDR_LEN_FILENAME <? fl then Ok false else
     match h_filename h with
     | None => Fault 1307                      (* strlen(NULL) *)
     | Some fn =>
-      if (mb_MBHDR_LEN_FILENAME <? fl) || negb (fl =? nlen fn) then Ok false else
+      if negb (fl =? nlen fn) then Ok false else
       nm <- name_matches data mb_MBHDR_OFF_FILENAME fn ;;
       if negb nm then Ok false else
       rest <- block_is_zero (N.to_nat (mb_MBHDR_LEN_FILENAME - fl)) data (mb_MBHDR_OFF_FILENAME + fl) ;;
@@ -74,50 +97,53 @@ Section MacBinary.
     end.
 
   (* read_macbinary_header: while (bytes < MBHDR_SIZE) { n = lha_decoder_read(...); if (n == 0) return 0; ... } *)
-  Definition rmh_step (mr bs : N) (s : idec * list N) : outcome ((idec * list N) + (bool * idec * list N)) :=
-    let '(d, got) := s in
+  Definition rmh_step (s : mb_world * list N) : outcome ((mb_world * list N) + (bool * mb_world * list N)) :=
+    let '(w, got) := s in
     if nlen got <? mb_MBHDR_SIZE then
-      '(o, _, d') <- inner_read mr bs d (mb_MBHDR_SIZE - nlen got) ;;
+      '(o, ev, d') <- inner_read (mw_dec w) (mb_MBHDR_SIZE - nlen got) ;;
+      let w' := {| mw_dec := d'; mw_ev := mw_ev w ++ ev |} in
       match o with
-      | [] => Ok (inr (false, d', got))
-      | _ => Ok (inl (d', got ++ o))
+      | [] => Ok (inr (false, w', got))
+      | _ => Ok (inl (w', got ++ o))
       end
-    else Ok (inr (true, d, got)).
+    else Ok (inr (true, w, got)).
 
   (* macbinary_decoder_init: None = failure (the outer lha_decoder_new returns NULL).
      The inner decoder has been advanced in either case. *)
-  Definition macbinary_init (mr bs : N) (d : idec) (h : header) : outcome (option mb_state * idec) :=
+  Definition macbinary_init (w : mb_world) (h : header) : outcome (option mb_state * mb_world) :=
     let st0 := {| mb_header := []; mb_header_bytes := 0; mb_remaining := h_length h |} in
-    if h_length h <? mb_MBHDR_SIZE then Ok (Some st0, d) else
-    '(ok, d1, got) <- loop (rmh_step mr bs) 10 (d, []) ;;
-    if negb ok then Ok (None, d1) else
+    if h_length h <? mb_MBHDR_SIZE then Ok (Some st0, w) else
+    '(ok, w1, got) <- loop rmh_step 10 (w, []) ;;
+    if negb ok then Ok (None, w1) else
     if mb_header_extent <? nlen got then Fault 1311 else
     is_mb <- is_macbinary_header got h ;;
     if negb is_mb then
-      Ok (Some {| mb_header := got; mb_header_bytes := nlen got; mb_remaining := h_length h |}, d1)
+      Ok (Some {| mb_header := got; mb_header_bytes := nlen got; mb_remaining := h_length h |}, w1)
     else
       dfl <- be32 1312 got mb_MBHDR_OFF_DATA_FORK_LEN ;;
       rfl <- be32 1313 got mb_MBHDR_OFF_RES_FORK_LEN ;;
       Ok (Some {| mb_header := got; mb_header_bytes := 0;
-                  mb_remaining := if 0 <? dfl then dfl else rfl |}, d1).
+                  mb_remaining := if 0 <? dfl then dfl else rfl |}, w1).
 
   (* decode_to_end: do { n = lha_decoder_read(decoder, buf, 128); } while (n > 0); *)
-  Definition dte_step (mr bs : N) (d : idec) : outcome (idec + idec) :=
-    '(o, _, d') <- inner_read mr bs d 128 ;;
-    match o with [] => Ok (inr d') | _ => Ok (inl d') end.
+  Definition dte_step (w : mb_world) : outcome (mb_world + mb_world) :=
+    '(o, ev, d') <- inner_read (mw_dec w) 128 ;;
+    let w' := {| mw_dec := d'; mw_ev := mw_ev w ++ ev |} in
+    match o with [] => Ok (inr w') | _ => Ok (inl w') end.
 
-  (* macbinary_decoder_read: the dread of the outer decoder; its callback state is the inner decoder *)
-  Definition macbinary_read (mr bs : N) (s : mb_state) (d : idec) : outcome (list N * mb_state * idec) :=
+  (* macbinary_decoder_read: the dread of the outer decoder *)
+  Definition macbinary_read (s : mb_state) (w : mb_world) : outcome (list N * mb_state * mb_world) :=
     let pre := if 0 <? mb_header_bytes s then firstn_N (mb_header_bytes s) (mb_header s) else [] in
     let result := nlen pre in
     if mb_OUTPUT_BUFFER_SIZE <? result then Fault 1314 else
     let to_read := mb_OUTPUT_BUFFER_SIZE - result in
     let to_read := if mb_remaining s <? to_read then mb_remaining s else to_read in
-    '(o, _, d1) <- inner_read mr bs d to_read ;;
+    '(o, ev, d1) <- inner_read (mw_dec w) to_read ;;
+    let w1 := {| mw_dec := d1; mw_ev := mw_ev w ++ ev |} in
     let remaining := mb_remaining s - nlen o in
     let s' := {| mb_header := mb_header s; mb_header_bytes := 0; mb_remaining := remaining |} in
     if remaining =? 0 then
-      d2 <- loop (dte_step mr bs) 64 d1 ;;
-      Ok (pre ++ o, s', d2)
-    else Ok (pre ++ o, s', d1).
+      w2 <- loop dte_step 64 w1 ;;
+      Ok (pre ++ o, s', w2)
+    else Ok (pre ++ o, s', w1).
 End MacBinary.
